@@ -10,9 +10,11 @@ RULE = ('each case fixes a group (G1/G2), a relation between A and B (independen
         'A+O, O+A and every returned Jacobian triple is judged by the model: coordinates < q, y^2 = x^3 + b z^6, and affine image '
         '(x/z^2, y/z^3 by the model\'s own inversion) equal to the affine chord-and-tangent result on the dlog-derived points. '
         'Also arbitrary curve points not known as multiples of the generator (for G2: twist points outside the order-r subgroup). '
-        'distinct = distinct (group, op, operand triples); non-trivial = neither operand is the identity')
+        'Pairs of distinct points sharing their y-coordinate ((beta*x, y), beta^3 = 1) are a required class. distinct = distinct (group, op, operand triples); non-trivial = neither operand is the identity')
 
-RELATIONS = ['indep', 'equal', 'samereg', 'opposite', 'idA', 'idB', 'outside']
+RELATIONS = ['indep', 'equal', 'samereg', 'opposite', 'idA', 'idB', 'outside', 'same-y']
+# a primitive cube root of unity of Fq: (beta*x, y) is another curve point with the SAME y (the adder's r = 0, h != 0 case)
+BETA = next(b for b in (pow(g, (q - 1) // 3, q) for g in range(2, 50)) if b != 1)
 
 
 def cases(tier, seed):
@@ -64,11 +66,18 @@ def run(ctx, spec):
         b = pr.let(g + '.lit', rm.jac_lit(F, S, gen.lam_for(rng, which) if rng.random() < 0.5 else None))[0]
         return pr.let(g + '.add', a, b)[0]
 
-    if rel == 'outside':
-        PA = points.rand_curve_point(rng, which)
+    if rel in ('outside', 'same-y'):
+        if rel == 'same-y' and rng.random() < 0.7:
+            PA = rm.gmul(which, gen.scalar_r(rng)[0] or 1)
+        else:
+            PA = points.rand_curve_point(rng, which)
         PB = points.rand_curve_point(rng, which)
         k = rng.randrange(4)
-        if k == 0:
+        if rel == 'same-y':
+            bk = BETA if rng.random() < 0.5 else BETA * BETA % q
+            PB = (PA[0] * bk % q, PA[1]) if which == 1 else (rm.f2scale(PA[0], bk), PA[1])
+            assert rm.oncurve(F, PB)
+        elif k == 0:
             PB = PA
         elif k == 1:
             PB = rm.cneg(F, PA)
